@@ -20,9 +20,16 @@ import time
 import hashlib
 
 VERIF = os.path.dirname(os.path.dirname(os.path.abspath(__file__)))
-REPO = os.environ.get("VERIF_REPO", "/repo")
-WORK = os.path.join(VERIF, ".work")
-HARNESS = os.path.join(VERIF, "harness")
+REPO = os.path.abspath(os.environ.get("VERIF_REPO", "/repo"))
+# Sensitivity experiments: VERIF_REPO=<scratch copy of /repo with a patch applied> runs the same check
+# against that tree, with its own work dir, its own copy of the harness module and its own evidence
+# dir, so that it never disturbs checks running against /repo itself.
+ALT = REPO != "/repo"
+WORK = os.path.join(VERIF, ".work") if not ALT else os.path.join(os.path.dirname(REPO), "work_" + os.path.basename(REPO))
+HARNESS_SRC = os.path.join(VERIF, "harness")
+HARNESS = HARNESS_SRC if not ALT else os.path.join(os.path.dirname(REPO), "harness_" + os.path.basename(REPO))
+EVIDENCE_DIR = os.path.join(VERIF, "evidence") if not ALT else os.path.join(WORK, "evidence")
+REPLAY_ROOT = os.path.join(VERIF, "replays") if not ALT else os.path.join(WORK, "replays")
 NCPU = os.cpu_count() or 4
 TLA_CP = "/opt/veriftools/tla/tla2tools.jar:/opt/veriftools/tla/CommunityModules-deps.jar"
 
@@ -42,6 +49,9 @@ def go_env():
 def gen_go_mod():
     """(Re)generate harness/go.mod + go.sum from /repo's, so the harness always builds against the
     current working tree of /repo with exactly its dependency versions."""
+    if ALT:
+        subprocess.run(["rsync", "-a", "--delete", "--exclude", "go.mod", "--exclude", "go.sum",
+                        HARNESS_SRC + "/", HARNESS + "/"], check=True)
     src = open(os.path.join(REPO, "go.mod")).read()
     out = []
     for line in src.splitlines():
@@ -359,7 +369,7 @@ class Ctx:
         self.work = os.path.join(WORK, prop)
         shutil.rmtree(self.work, ignore_errors=True)
         os.makedirs(self.work, exist_ok=True)
-        self.replay_dir = os.path.join(VERIF, "replays", prop)
+        self.replay_dir = os.path.join(REPLAY_ROOT, prop)
         os.makedirs(self.replay_dir, exist_ok=True)
         self.cov = {"states": 0, "transitions": 0, "traces_validated_against_impl": 0, "samples": [],
                     "evaluations": 0, "distinct_nontrivial": 0, "exhaustive": False,
@@ -525,8 +535,8 @@ class Ctx:
         ev = {"property_id": self.prop, "tier": self.tier, "seed": self.seed, "level": "model_checking",
               "coverage": cov, "assumptions": self.assumptions, "wall_s": round(wall, 1),
               "violations": len(self.violations)}
-        os.makedirs(os.path.join(VERIF, "evidence"), exist_ok=True)
-        with open(os.path.join(VERIF, "evidence", self.prop + ".json"), "w") as f:
+        os.makedirs(EVIDENCE_DIR, exist_ok=True)
+        with open(os.path.join(EVIDENCE_DIR, self.prop + ".json"), "w") as f:
             json.dump(ev, f, indent=1, default=str)
         for sig, what in self.known_hits:
             print("KNOWN-FINDING: property=%s %s: %s" % (self.prop, sig, what.replace("\n", " ")[:400]))
